@@ -200,110 +200,117 @@ fn run_callers(scheduler: &SimScheduler_, callers: &[Vec<Entry>]) -> Vec<CallRes
     v.into_iter().map(|(_, r)| r).collect()
 }
 
-thread_local! {
-    static ENGINE_WARM: std::cell::Cell<bool> = const { std::cell::Cell::new(false) };
-}
-
-pub fn engine_config(sched: &SchedSpec) -> Config {
+pub fn engine_config(max_steps: u64) -> Config {
     let mut config = Config::new();
     config.stack_size = 1 << 20;
     config.failure_persistence = FailurePersistence::None;
-    config.max_steps = MaxSteps::FailAfter((sched.n1 + sched.n2) as usize);
+    config.max_steps = MaxSteps::FailAfter(max_steps as usize);
     config.silence_warnings = true;
     config
 }
 
-/// Run one scenario under the simulator. Never panics: every failure is turned into a verdict.
-pub fn run_sim(scenario: &Arc<Scenario>, sched: &SchedSpec, replay: Option<Trace>, opts: &RunOptions) -> SimResult {
-    crate::hook::ensure_installed();
-    let sched_out = Rc::new(RefCell::new(SchedOut::default()));
-    let mode = match replay {
-        Some(trace) => Mode::Replay(trace),
-        None => Mode::Random,
-    };
-    let scheduler = SimScheduler::new(sched.clone(), mode, sched_out.clone(), opts.record_trace);
-    let runner = Runner::new(scheduler, engine_config(sched));
+// ------------------------------------------------------------------------------------------------
+// Engine threads. Every caller thread owns one engine OS thread that keeps a shuttle `Runner` (and
+// its pool of coroutine stacks) alive across runs: the runner's scheduler pulls the next job in
+// `new_execution()`. A run that ends in an engine panic (deadlock, step bound) tears the runner down;
+// the engine thread reports the verdict and starts a fresh runner.
+// ------------------------------------------------------------------------------------------------
 
-    let slot: Arc<Mutex<Option<SimOutput>>> = Arc::new(Mutex::new(None));
-    let finish: Arc<Mutex<Option<(u64, u64, [u64; 16], Option<Vec<(u32, u32)>>)>>> = Arc::new(Mutex::new(None));
-    let body = {
-        let scenario = Arc::clone(scenario);
-        let slot = Arc::clone(&slot);
-        let finish = Arc::clone(&finish);
-        let opts = opts.clone();
-        let buggify = sched.buggify;
-        let seed = sched.seed;
-        move || {
-            // ---- everything below runs inside the main task of the simulated execution ----
-            ahash::random_state::verif_reset_seed_counter(seed as usize | 1);
-            rt::begin_run(opts.record_log, buggify);
-            monitor::install(opts.expected_first.clone());
-            let db = Arc::new(SimDb::from_scenario(&scenario, true, false));
-            let precompile_log = Arc::new(PrecompileLog::default());
-            let pcs = precompiles::build(&scenario.precompiles, &precompile_log);
-            let pcs_arc = (!pcs.is_empty()).then(|| Arc::new(pcs));
-            let state = new_parallel_state(&scenario, Arc::clone(&db));
-            let txs = Arc::new(scenario.txs.iter().map(make_tx).collect::<Vec<_>>());
-            let scheduler = Scheduler::new_with_runtime_config(
-                make_cfg(&scenario.evm),
-                make_block(&scenario.block),
-                txs,
-                state,
-                pcs_arc.clone(),
-                grevm_config(&scenario),
-            );
-            let calls = run_callers(&scheduler, &scenario.callers);
-            let (outcomes, mut state) = scheduler.take_result_and_state();
-            let mut second = None;
-            if let Some((block2, txs2)) = &scenario.second {
-                // Block boundary as an integration would do it: merge the first block's transitions,
-                // then run the next block on the same state (its cache now holds whatever the first
-                // block's speculative readers left behind).
-                {
-                    let _g = rt::no_switch();
-                    state.merge_transitions(revm_database::states::bundle_state::BundleRetention::Reverts);
-                }
-                monitor::next_block(opts.expected_second.clone());
-                let txs = Arc::new(txs2.iter().map(make_tx).collect::<Vec<_>>());
-                let scheduler2 = Scheduler::new_with_runtime_config(
-                    make_cfg(&scenario.evm),
-                    make_block(block2),
-                    txs,
-                    state,
-                    pcs_arc,
-                    grevm_config(&scenario),
-                );
-                let calls2 = run_callers(&scheduler2, &[vec![Entry::Execute]]);
-                let (outcomes2, state2) = scheduler2.take_result_and_state();
-                state = state2;
-                second = Some((calls2, outcomes2));
-            }
-            *finish.lock().unwrap() = Some((rt::steps(), rt::trace_hash(), rt::fault_counts(), rt::take_log()));
-            rt::end_run();
-            *slot.lock().unwrap() =
-                Some(SimOutput { first: BlockOutput { calls, outcomes, state }, second, db, precompile_log });
+
+/// Blocking single-slot hand-off (std mpsc spins with sched_yield before parking, which burns a core
+/// per waiting thread when 16 caller threads wait for 16 engine threads).
+pub struct Chan<T> {
+    slot: Mutex<(std::collections::VecDeque<T>, bool)>,
+    cv: std::sync::Condvar,
+}
+
+impl<T> Chan<T> {
+    pub fn new() -> Arc<Self> {
+        Arc::new(Self { slot: Mutex::new((std::collections::VecDeque::new(), false)), cv: std::sync::Condvar::new() })
+    }
+    pub fn send(&self, v: T) -> Result<(), T> {
+        let mut g = self.slot.lock().unwrap();
+        if g.1 {
+            return Err(v);
         }
-    };
+        g.0.push_back(v);
+        self.cv.notify_one();
+        Ok(())
+    }
+    pub fn close(&self) {
+        let mut g = self.slot.lock().unwrap();
+        g.1 = true;
+        self.cv.notify_all();
+    }
+    pub fn recv(&self) -> Option<T> {
+        let mut g = self.slot.lock().unwrap();
+        loop {
+            if let Some(v) = g.0.pop_front() {
+                return Some(v);
+            }
+            if g.1 {
+                return None;
+            }
+            g = self.cv.wait(g).unwrap();
+        }
+    }
+}
 
-    let run = catch_unwind(AssertUnwindSafe(|| runner.run(body)));
-    let steps_in_failed_run = rt::steps();
-    let hash_in_failed_run = rt::trace_hash();
-    let faults_in_failed_run = rt::fault_counts();
-    let log_in_failed_run = rt::take_log();
+struct CloseOnDrop<T>(Arc<Chan<T>>);
+impl<T> Drop for CloseOnDrop<T> {
+    fn drop(&mut self) {
+        self.0.close();
+    }
+}
+
+struct Job {
+    scenario: Arc<Scenario>,
+    sched: SchedSpec,
+    replay: Option<Trace>,
+    opts: RunOptions,
+    reply: Arc<Chan<SimResult>>,
+}
+
+struct Current {
+    job: Job,
+    sched_out: Rc<RefCell<SchedOut>>,
+    inner: SimScheduler,
+}
+
+struct EngineState {
+    rx: Arc<Chan<Job>>,
+    current: Option<Current>,
+    /// job received but requiring a different step bound: handed to the next runner
+    pending: Option<Job>,
+    max_steps: u64,
+    closed: bool,
+}
+
+thread_local! {
+    static SLOT: RefCell<Option<SimOutput>> = const { RefCell::new(None) };
+    static FINISH: RefCell<Option<(u64, u64, [u64; 16], Option<Vec<(u32, u32)>>)>> = const { RefCell::new(None) };
+    static BODY_INPUT: RefCell<Option<(Arc<Scenario>, RunOptions, u32, u64)>> = const { RefCell::new(None) };
+    static ENGINE: RefCell<Option<CloseOnDrop<Job>>> = const { RefCell::new(None) };
+}
+
+fn finalize(current: Current, failure: Option<String>) {
+    let Current { job, sched_out, inner } = current;
+    drop(inner);
+    let steps_now = rt::steps();
+    let hash_now = rt::trace_hash();
+    let faults_now = rt::fault_counts();
+    let log_now = rt::take_log();
     rt::end_run();
     let monitor = monitor::take();
     let sched = std::mem::take(&mut *sched_out.borrow_mut());
-    let finished = finish.lock().unwrap().take();
-    let verdict = match run {
-        Ok(_) => match slot.lock().unwrap().take() {
+    let finished = FINISH.with(|f| f.borrow_mut().take());
+    let output = SLOT.with(|s| s.borrow_mut().take());
+    let verdict = match failure {
+        None => match output {
             Some(out) => Verdict::Completed(Box::new(out)),
             None => Verdict::HarnessError("execution ended without output".into()),
         },
-        Err(payload) => {
-            let msg = match classify_panic(payload.as_ref()) {
-                PanicKind::Other(m) => m,
-                other => format!("{other:?}"),
-            };
+        Some(msg) => {
             if msg.starts_with("deadlock!") {
                 Verdict::Deadlock(msg)
             } else if msg.starts_with("exceeded max_steps") {
@@ -313,9 +320,204 @@ pub fn run_sim(scenario: &Arc<Scenario>, sched: &SchedSpec, replay: Option<Trace
             }
         }
     };
-    let (steps, trace_hash, fault_counts, log) = match finished {
-        Some(f) => f,
-        None => (steps_in_failed_run, hash_in_failed_run, faults_in_failed_run, log_in_failed_run),
-    };
-    SimResult { verdict, sched, monitor, steps, trace_hash, fault_counts, log }
+    let (steps, trace_hash, fault_counts, log) = finished.unwrap_or((steps_now, hash_now, faults_now, log_now));
+    let _ = job.reply.send(SimResult { verdict, sched, monitor, steps, trace_hash, fault_counts, log });
+    job.reply.close();
+}
+
+struct PullScheduler {
+    state: Rc<RefCell<EngineState>>,
+}
+
+impl shuttle_engine::scheduler::Scheduler for PullScheduler {
+    fn new_execution(&mut self) -> Option<shuttle_engine::scheduler::Schedule> {
+        let mut st = self.state.borrow_mut();
+        if let Some(done) = st.current.take() {
+            finalize(done, None);
+        }
+        let job = match st.pending.take() {
+            Some(j) => j,
+            None => match st.rx.recv() {
+                Some(j) => j,
+                None => {
+                    st.closed = true;
+                    return None;
+                }
+            },
+        };
+        if job.sched.n1 + job.sched.n2 != st.max_steps {
+            // different step bound: end this runner, the engine loop builds a new one
+            st.max_steps = job.sched.n1 + job.sched.n2;
+            st.pending = Some(job);
+            return None;
+        }
+        let sched_out = Rc::new(RefCell::new(SchedOut::default()));
+        let mode = match job.replay.clone() {
+            Some(trace) => Mode::Replay(trace),
+            None => Mode::Random,
+        };
+        let mut inner = SimScheduler::new(job.sched.clone(), mode, sched_out.clone(), job.opts.record_trace);
+        let schedule = shuttle_engine::scheduler::Scheduler::new_execution(&mut inner);
+        SLOT.with(|s| *s.borrow_mut() = None);
+        FINISH.with(|f| *f.borrow_mut() = None);
+        BODY_INPUT.with(|b| {
+            *b.borrow_mut() = Some((Arc::clone(&job.scenario), job.opts.clone(), job.sched.buggify, job.sched.seed))
+        });
+        st.current = Some(Current { job, sched_out, inner });
+        schedule
+    }
+
+    fn next_task(
+        &mut self,
+        runnable: &[&shuttle_engine::scheduler::Task],
+        current: Option<shuttle_engine::scheduler::TaskId>,
+        is_yielding: bool,
+    ) -> Option<shuttle_engine::scheduler::TaskId> {
+        let mut st = self.state.borrow_mut();
+        st.current.as_mut().expect("job in flight").inner.next_task(runnable, current, is_yielding)
+    }
+
+    fn next_u64(&mut self) -> u64 {
+        let mut st = self.state.borrow_mut();
+        st.current.as_mut().expect("job in flight").inner.next_u64()
+    }
+}
+
+/// The main task of every simulated execution.
+fn sim_body() {
+    let (scenario, opts, buggify, seed) = BODY_INPUT.with(|b| b.borrow_mut().take()).expect("body input");
+    ahash::random_state::verif_reset_seed_counter(seed as usize | 1);
+    rt::begin_run(opts.record_log, buggify);
+    monitor::install(opts.expected_first.clone());
+    let db = Arc::new(SimDb::from_scenario(&scenario, true, false));
+    let precompile_log = Arc::new(PrecompileLog::default());
+    let pcs = precompiles::build(&scenario.precompiles, &precompile_log);
+    let pcs_arc = (!pcs.is_empty()).then(|| Arc::new(pcs));
+    let state = new_parallel_state(&scenario, Arc::clone(&db));
+    let txs = Arc::new(scenario.txs.iter().map(make_tx).collect::<Vec<_>>());
+    let scheduler = Scheduler::new_with_runtime_config(
+        make_cfg(&scenario.evm),
+        make_block(&scenario.block),
+        txs,
+        state,
+        pcs_arc.clone(),
+        grevm_config(&scenario),
+    );
+    let calls = run_callers(&scheduler, &scenario.callers);
+    let (outcomes, mut state) = scheduler.take_result_and_state();
+    let mut second = None;
+    if let Some((block2, txs2)) = &scenario.second {
+        // Block boundary as an integration would do it: merge the first block's transitions, then run
+        // the next block on the same state (its cache now holds whatever the first block's
+        // speculative readers left behind).
+        {
+            let _g = rt::no_switch();
+            state.merge_transitions(revm_database::states::bundle_state::BundleRetention::Reverts);
+        }
+        monitor::next_block(opts.expected_second.clone());
+        let txs = Arc::new(txs2.iter().map(make_tx).collect::<Vec<_>>());
+        let scheduler2 = Scheduler::new_with_runtime_config(
+            make_cfg(&scenario.evm),
+            make_block(block2),
+            txs,
+            state,
+            pcs_arc,
+            grevm_config(&scenario),
+        );
+        let calls2 = run_callers(&scheduler2, &[vec![Entry::Execute]]);
+        let (outcomes2, state2) = scheduler2.take_result_and_state();
+        state = state2;
+        second = Some((calls2, outcomes2));
+    }
+    FINISH.with(|f| *f.borrow_mut() = Some((rt::steps(), rt::trace_hash(), rt::fault_counts(), rt::take_log())));
+    rt::end_run();
+    SLOT.with(|s| {
+        *s.borrow_mut() = Some(SimOutput { first: BlockOutput { calls, outcomes, state }, second, db, precompile_log })
+    });
+}
+
+fn engine_thread_main(rx: Arc<Chan<Job>>, _guard: ()) {
+    let state = Rc::new(RefCell::new(EngineState {
+        rx,
+        current: None,
+        pending: None,
+        max_steps: crate::checks::N1 + crate::checks::N2,
+        closed: false,
+    }));
+    loop {
+        let max_steps = state.borrow().max_steps;
+        let runner = Runner::new(PullScheduler { state: Rc::clone(&state) }, engine_config(max_steps));
+        let run = catch_unwind(AssertUnwindSafe(|| runner.run(sim_body)));
+        if let Err(payload) = run {
+            let msg = match classify_panic(payload.as_ref()) {
+                PanicKind::Other(m) => m,
+                other => format!("{other:?}"),
+            };
+            // the RefCell may still be borrowed if the panic came out of the scheduler itself
+            match state.try_borrow_mut() {
+                Ok(mut st) => {
+                    if let Some(current) = st.current.take() {
+                        finalize(current, Some(msg));
+                    }
+                }
+                Err(_) => return,
+            }
+        }
+        if state.borrow().closed {
+            return;
+        }
+    }
+}
+
+/// Run one scenario under the simulator. Never panics: every failure is turned into a verdict.
+pub fn run_sim(scenario: &Arc<Scenario>, sched: &SchedSpec, replay: Option<Trace>, opts: &RunOptions) -> SimResult {
+    crate::hook::ensure_installed();
+    let reply: Arc<Chan<SimResult>> = Chan::new();
+    let mut job = Some(Job { scenario: Arc::clone(scenario), sched: sched.clone(), replay, opts: opts.clone(), reply: Arc::clone(&reply) });
+    for _attempt in 0..2 {
+        let sent = ENGINE.with(|e| {
+            let mut e = e.borrow_mut();
+            if e.is_none() {
+                let chan: Arc<Chan<Job>> = Chan::new();
+                let rx = Arc::clone(&chan);
+                let reply_on_death = Arc::clone(&chan);
+                std::thread::Builder::new()
+                    .name("sim-engine".into())
+                    .stack_size(4 << 20)
+                    .spawn(move || {
+                        engine_thread_main(rx, ());
+                        // engine gone: refuse further jobs and fail the ones still queued
+                        reply_on_death.close();
+                        while let Some(j) = reply_on_death.recv() {
+                            j.reply.close();
+                        }
+                    })
+                    .expect("spawn engine thread");
+                *e = Some(CloseOnDrop(chan));
+            }
+            match e.as_ref().unwrap().0.send(job.take().unwrap()) {
+                Ok(()) => true,
+                Err(j) => {
+                    job = Some(j);
+                    *e = None;
+                    false
+                }
+            }
+        });
+        if sent {
+            break;
+        }
+    }
+    match reply.recv() {
+        Some(r) => r,
+        None => SimResult {
+            verdict: Verdict::HarnessError("engine thread died".into()),
+            sched: SchedOut::default(),
+            monitor: Monitor::default(),
+            steps: 0,
+            trace_hash: 0,
+            fault_counts: [0; 16],
+            log: None,
+        },
+    }
 }
